@@ -1,6 +1,102 @@
-"""Thorough tier: re-derives the facts in a scratch copy with each seeded mutant applied and asserts the
-property's rules fire (and name the seeded instance); see DESIGN.md §7.  Filled in below."""
+"""Thorough tier: checker self-validation on seeded variants of the tree under analysis.
+
+For the property being checked, every mutant in /verif/mutants (self-test corpus, one defect each: the reversals of the
+repaired defects plus hand-seeded breakages) and every kept sub-agent change in /verif/seeded is applied to a scratch copy of
+/repo's current working tree (under /var/tmp, removed afterwards); the facts are re-derived with the driver and the
+property's rules must report a violation whose key starts with the expected prefix.  Nothing is executed except the
+compiler.  A mutant whose patch no longer applies to the tree under analysis is reported as skipped (the tree was edited
+there), not as a failure."""
+import concurrent.futures
+import glob
+import json
+import os
+import re
+import shutil
+import subprocess
+import time
+
+from . import facts, engine
+from .db import DB
+
+VERIF = facts.VERIF
+WORKERS = 5
+
+
+def _mutants_for(prop):
+    out = []
+    for p in sorted(glob.glob(os.path.join(VERIF, "mutants", "*.diff"))):
+        head = open(p).read(600)
+        m = re.search(r"# property: (\w+)", head)
+        e = re.search(r"# expect: (.*)", head)
+        if m and m.group(1) == prop:
+            out.append({"id": os.path.basename(p)[:-5], "patch": p, "expect": e.group(1).strip() if e else "", "kind": "self-test"})
+    for d in sorted(glob.glob(os.path.join(VERIF, "seeded", "*"))):
+        mp = os.path.join(d, "meta.json")
+        pp = os.path.join(d, "patch.diff")
+        if os.path.exists(mp) and os.path.exists(pp):
+            meta = json.load(open(mp))
+            if meta.get("property") == prop and meta.get("detected_by"):
+                out.append({"id": os.path.basename(d), "patch": pp, "expect": meta.get("expect_key_prefix", ""), "kind": "seeded"})
+    return out
+
+
+def _copy_tree(repo, dst):
+    shutil.rmtree(dst, ignore_errors=True)
+    subprocess.check_call(["rsync", "-a", "--exclude", "target", "--exclude", ".git", repo.rstrip("/") + "/", dst + "/"])
+
+
+def _run_one(prop, repo, mut, idx):
+    dst = "/var/tmp/sverif-mut-%d-%d" % (os.getpid(), idx)
+    out = dst + "-facts"
+    t0 = time.time()
+    try:
+        _copy_tree(repo, dst)
+        r = subprocess.run(["patch", "-p1", "-s", "-f", "--no-backup-if-mismatch", "-i", mut["patch"]], cwd=dst,
+                           stdout=subprocess.PIPE, stderr=subprocess.STDOUT, text=True)
+        if r.returncode != 0:
+            return dict(mut, status="skipped", why="patch does not apply to the tree under analysis", wall_s=round(time.time() - t0, 1))
+        try:
+            facts.run_driver(dst, out)
+        except facts.FactsError as e:
+            return dict(mut, status="broken", why="variant does not build: %s" % str(e)[-300:], wall_s=round(time.time() - t0, 1))
+        crates = facts.load_dir(out)
+        # normalise file names recorded under the scratch dir
+        code, ev, lines, ctx = engine.run_property(prop, dst, "quick", crates, {"tree_hash": "mutant:" + mut["id"]})
+        bad = [o for o in ctx.obs if not o.ok]
+        known, fixed = engine.load_known()
+        fresh = [o for o in bad if not (o.key in known and (known[o.key].get("sig") is None or known[o.key].get("sig") == o.sig))]
+        hit = [o for o in fresh if o.key.startswith(mut["expect"])] if mut["expect"] else fresh
+        return dict(mut, status="detected" if hit else "MISSED", reported=[o.key for o in fresh][:6],
+                    named_instance=bool(hit), wall_s=round(time.time() - t0, 1))
+    finally:
+        shutil.rmtree(dst, ignore_errors=True)
+        shutil.rmtree(out, ignore_errors=True)
 
 
 def run(prop, repo, ctx):
-    return 0, [], {"note": "no additional thorough-tier exploration registered for this property yet"}
+    muts = _mutants_for(prop)
+    results = []
+    facts.build_driver()
+    with concurrent.futures.ThreadPoolExecutor(max_workers=WORKERS) as ex:
+        futs = [ex.submit(_run_one, prop, repo, m, i) for i, m in enumerate(muts)]
+        for f in futs:
+            try:
+                results.append(f.result())
+            except Exception as e:  # never let the self-test hide behind an exception
+                results.append({"id": "?", "status": "broken", "why": repr(e)})
+    detected = [r for r in results if r["status"] == "detected"]
+    missed = [r for r in results if r["status"] == "MISSED"]
+    skipped = [r for r in results if r["status"] in ("skipped", "broken")]
+    lines = []
+    for r in results:
+        lines.append("SELFTEST %s %s %s%s" % (prop, r.get("id"), r["status"], (" (" + r.get("why", "") + ")") if r.get("why") else ""))
+    cov = {
+        "what": "checker self-validation: each seeded variant of the analysed tree must make this property's rules report the seeded instance",
+        "variants": len(results), "detected": len(detected), "missed": [r["id"] for r in missed],
+        "skipped": [{"id": r.get("id"), "why": r.get("why")} for r in skipped],
+        "results": [{k: v for k, v in r.items() if k != "patch"} for r in results],
+    }
+    if missed:
+        lines.append("CHECKER-SELFTEST-FAILED property=%s: rules did not fire on %s" % (prop, [r["id"] for r in missed]))
+        return 2, lines, cov
+    return 0, lines, cov
